@@ -160,7 +160,7 @@ def rule_setlen_cap(ctx, cfg, F):
                 dest_roots = _flows_to(f, t2["dest"]["l"], V)
                 if dest_roots and f.dominates(b2, b):
                     cap_key = expr_strip_blocks(ex.of_operand(t2["args"][0]))
-                    if cap_key == n_key and (n_key[0] in ("param", "const") or (n_key[0] == "call" and not n_key[2])):
+                    if cap_key == n_key and _pure(n_key):
                         why = "n is the with_capacity argument (%s)" % expr_str(n_expr)
             # (b) dominated by the true edge of n <= capacity(V)
             if not why:
@@ -211,6 +211,19 @@ def rule_setlen_cap(ctx, cfg, F):
                           "Vec::set_len(%s) in %s is not justified by any of the capacity arguments: the vector may expose uninitialised or out-of-bounds memory" % (expr_str(n_expr)[:80], f.path),
                           f.path, f.loc(b), config=cfg)
     R.count("set_len_sites[%s]" % cfg, n_sites)
+
+
+def _pure(e):
+    """expression built only from constants, parameters and argument-free crate calls"""
+    if not isinstance(e, tuple):
+        return True
+    if e[0] in ("param", "const"):
+        return True
+    if e[0] == "call":
+        return not e[2]
+    if e[0] == "bin":
+        return _pure(e[2]) and _pure(e[3])
+    return False
 
 
 def _shape(e):
